@@ -250,6 +250,30 @@ pub fn nth_slide(i: u64) -> String {
     t.replace("{P}", &p).replace("{D}", &d).replace("{E}", esc).replace("{M}", lit)
 }
 
+/// "Repeat" cases: every ordered pair of tokens repeated n times (n around the u8 limit and
+/// 1000): state that grows by one per repetition of a *fragment* (not of a character) and is
+/// only released by a different token.
+pub const REPEAT_COUNTS: [usize; 4] = [255, 256, 257, 1000];
+pub fn repeat_count() -> u64 {
+    (TOKENS.len() * TOKENS.len() * REPEAT_COUNTS.len()) as u64
+}
+pub fn nth_repeat(i: u64) -> String {
+    let n = REPEAT_COUNTS[(i % 4) as usize];
+    let j = i / 4;
+    let a = TOKENS[(j % TOKENS.len() as u64) as usize];
+    let b = TOKENS[((j / TOKENS.len() as u64) % TOKENS.len() as u64) as usize];
+    let mut s = String::with_capacity((a.len() + b.len()) * n + 4);
+    // an opener first, so that the repetition happens inside a flow / block context half of the time
+    if i % 8 >= 4 {
+        s.push_str(if j % 2 == 0 { "[" } else { "- " });
+    }
+    for _ in 0..n {
+        s.push_str(a);
+        s.push_str(b);
+    }
+    s
+}
+
 pub struct Gen<'a> {
     pub r: SplitMix64,
     pub corpus: &'a Corpus,
@@ -455,7 +479,7 @@ impl<'a> Gen<'a> {
     /// levels of block nesting), optionally closed, optionally with content.
     pub fn deep_nest(&mut self) -> String {
         let d = *self.r.pick(&[63usize, 64, 127, 128, 200, 254, 255, 256, 257, 258, 300, 511, 512, 1000, 1500]);
-        let open = *self.r.pick(&["[", "{", "[{", "{a: ", "[{a: ", "[a, ", "- ", "? ", "- ? ", "- - k: ", "- [", "? {"]);
+        let open = *self.r.pick(&["[", "{", "[{", "{a: ", "[{a: ", "[a, ", "- ", "? ", "- ? ", "- - k: ", "- [", "? {", "[}", "{]", "[ a, b: c },", "{a: [b}, ", "[a]: {", "- [}\n"]);
         let mut s = String::new();
         if self.r.chance(1, 6) {
             s.push_str("--- ");
@@ -530,7 +554,22 @@ impl<'a> Gen<'a> {
 
     fn mutate(&mut self, cs: &mut Vec<char>) {
         let n = cs.len();
-        match self.r.below(11) {
+        match self.r.below(12) {
+            11 if n > 0 => {
+                // repeat a short fragment k times (k around the limits of small counters)
+                let a = self.r.usize(n);
+                let l = 1 + self.r.usize((n - a).min(8));
+                let k = *self.r.pick(&[2usize, 3, 10, 20, 100, 254, 255, 256, 257, 300, 1000]);
+                let frag: Vec<char> = cs[a..a + l].to_vec();
+                let at = a + l;
+                let mut ins = Vec::with_capacity(l * k);
+                for _ in 0..k {
+                    ins.extend_from_slice(&frag);
+                }
+                let tail = cs.split_off(at);
+                cs.extend(ins);
+                cs.extend(tail);
+            }
             9 if n > 0 => {
                 // repeat one character k times (k around the capacities under test)
                 let i = self.r.usize(n);
